@@ -114,6 +114,21 @@ def check_prep(ctx, scripts, tag, nontrivial=None):
 # ---------------------------------------------------------------------------
 # segment scripts
 # ---------------------------------------------------------------------------
+def metadata_reference(msg, expr):
+    t = expr.strip()[1:]
+    if '.' in t:
+        a, name = t.split('.')
+        k = int(a)
+    else:
+        k, name = None, t
+    for sec in msg.sections:
+        if k is not None and sec.get_metadata('index') != k:
+            continue
+        if name in sec:
+            return getattr(sec, name).value
+    return None
+
+
 CODE_POOL = ['x = ', 'y=1\n', ' + ', '\n', ' ', 'print(', ')', '$', '$$', '$ {', '{', '}', '{}', 'a%b', '%', '\\',
              'z = [1, 2]\n', 'if a:\n    b\n', '$x', 'q$', '\t', 'r = $', '', '\r\n', 'é']
 SQ_POOL = ['', 'abc', '#', '${x}', '"', '# ${001001} "', '\n', '$', '${', '}', ' ${%n} ', '\\', 'a"b#c']
@@ -508,7 +523,9 @@ def check_real_scripts(ctx, n_files, n_scripts):
             for _ in range(rng.randrange(1, 5)):
                 i = rng.choice(ids[:40])
                 qs.append(rng.choice([i, '/' + i, '@[0] > ' + i, '@[::2] > ' + i, '@[-1] > ' + i,
-                                      '%n_subsets', '%length', '%0.length', '%edition', i + '[0]', '> ' + i + '[::2]']))
+                                      '%n_subsets', '%length', '%0.length', '%edition', i + '[0]', '> ' + i + '[::2]',
+                                      '%0.n_subsets', '%0.section_length', '%1.section_length', '%3.n_subsets', '%0.edition',
+                                      '%1.year', '%0.year', '%4.section_length', '%9.length', '%nothing']))
             if rng.random() < 0.3:
                 qs = [q for q in qs if q.startswith('%')] or ['%n_subsets']
             body = ''.join('v%d = ${%s%s%s}\n' % (j, rng.choice(PAD[:3]), q, rng.choice(PAD[:3])) for j, q in enumerate(qs))
@@ -557,7 +574,9 @@ def check_real_scripts(ctx, n_files, n_scripts):
                         want = unintern(parse_flat(mo2), table)
                         ctx.dist['real-data-query'] += 1
                     else:
-                        want = r
+                        # the property's own reading of '%[k.]name', independent of the querents: the first section
+                        # (in order) that has the name, or section k only
+                        want = metadata_reference(msg, expr)
                         ctx.dist['real-metadata-query'] += 1
                     if variables[name] != want:
                         ctx.violation(dict(case, kind='script-binding-value', expr=expr, level=level,
